@@ -33,7 +33,7 @@ def _header2comment(header):
     comment = {}
     i = 1
     for elem in header:
-        if not bool(re.search("-{10}", elem)):
+        if not bool(re.search("^-{10}", elem)):
             key = re.sub(":.*$", "", elem)
             val = elem[len(key)+1:].strip()
             key = re.sub(" +", "_", key.strip().lower())
